@@ -1,7 +1,9 @@
 package encx
 
 import (
+	"encoding/json"
 	"fmt"
+	"io"
 	"strings"
 	"time"
 
@@ -22,6 +24,7 @@ type Cfg struct {
 	LineEnding           string
 	SkipLineEnding       bool
 	Sep                  string // console separator ("" = default)
+	ReflectEnc           string // "" = zap's default reflection encoder; "partial" = a user-supplied streaming encoder (NewReflectedEncoder) that has already written part of its output when it fails
 }
 
 // HostileLayout is a time layout containing characters that need escaping.
@@ -102,7 +105,30 @@ func (c Cfg) EncoderConfig() zapcore.EncoderConfig {
 	case "noop":
 		ec.EncodeDuration = noopDur
 	}
+	if c.ReflectEnc == "partial" {
+		ec.NewReflectedEncoder = func(w io.Writer) zapcore.ReflectedEncoder {
+			e := json.NewEncoder(w)
+			e.SetEscapeHTML(false)
+			return partialEnc{w, e}
+		}
+	}
 	return ec
+}
+
+// partialEnc encodes like zap's default reflection encoder; a value it cannot
+// encode leaves the beginning of a document in the writer before the error is
+// returned, as a streaming encoder does.
+type partialEnc struct {
+	w io.Writer
+	e *json.Encoder
+}
+
+func (p partialEnc) Encode(v interface{}) error {
+	if _, err := json.Marshal(v); err != nil {
+		_, _ = io.WriteString(p.w, `{"partial":[1,"`)
+		return err
+	}
+	return p.e.Encode(v)
 }
 
 func (c Cfg) Ref() Ref {
@@ -114,8 +140,8 @@ func (c Cfg) Ref() Ref {
 }
 
 func (c Cfg) String() string {
-	return fmt.Sprintf("level=%q/%s time=%q/%s name=%q/%s caller=%q/%s func=%q msg=%q stack=%q dur=%s le=%q skipLE=%v sep=%q",
-		c.LevelKey, c.LevelEnc, c.TimeKey, c.TimeEnc, c.NameKey, c.NameEnc, c.CallerKey, c.CallerEnc, c.FunctionKey, c.MessageKey, c.StackKey, c.DurEnc, c.LineEnding, c.SkipLineEnding, c.Sep)
+	return fmt.Sprintf("reflect=%q level=%q/%s time=%q/%s name=%q/%s caller=%q/%s func=%q msg=%q stack=%q dur=%s le=%q skipLE=%v sep=%q",
+		c.ReflectEnc, c.LevelKey, c.LevelEnc, c.TimeKey, c.TimeEnc, c.NameKey, c.NameEnc, c.CallerKey, c.CallerEnc, c.FunctionKey, c.MessageKey, c.StackKey, c.DurEnc, c.LineEnding, c.SkipLineEnding, c.Sep)
 }
 
 // WantLineEnding is the documented line ending of the configuration.
